@@ -32,7 +32,10 @@ def real_lookup(rows, queries):
     from tola.assembly.gap import Gap
     sc = conv.to_real_scaffold({"name": "s", "rows": rows})
     oid_of = {id(r): jr["oid"] for r, jr in zip(sc.rows, rows) if jr["t"] == "F"}
-    ia = IndexedAssembly("x", scaffolds=[sc])
+    try:
+        ia = IndexedAssembly("x", scaffolds=[sc])
+    except Exception as e:   # the scaffold could not even be indexed: every query on it fails
+        return [{"err": conv.errkind(e)} for _ in queries]
     res = []
     for a, b in queries:
         try:
@@ -95,7 +98,7 @@ def random_case(rng):
         if rng.random() < 0.4:
             rows.append(conv.jgap(rng.choice([0, 1, 2, 100, 200, rng.randint(0, 10**6)])))
         else:
-            ln = rng.choice([1, 1, 2, rng.randint(1, 1000), rng.randint(1, 10**9)])
+            ln = rng.choice([1, 1, 2, rng.randint(1, 1000), rng.randint(1, 10**9), rng.randint(1, 10**9), 2**31, 2**32, 2**32 + 1, 2**63, 10**15])
             st = rng.randint(1, 10**6)
             rows.append(conv.jfrag(oid, f"c{oid}", st, st + ln - 1, rng.choice([1, -1, 0])))
             oid += 1
